@@ -136,7 +136,10 @@ def oracleC12Rounds (c : J) : Option String :=
   -- judged when the fault-free twin itself settles, and - as for C01 - when no foreign object occupies a desired child's
   -- name: with such an occupant a hook whose answer depends on what it observes (StatefulSet-like ordering) has several
   -- resting states, and which one is reached depends on the history, faults included
-  if !(quietAt tw (tw.length - 1)) || c.getBool "foreign" then none else
+  -- ... and when the faulty run did not end with the parent pending deletion and released (the controller's finalizer
+  -- gone): by C10 nothing is created, updated or deleted for such a parent any more, so what a fault left behind in the
+  -- sync that removed the finalizer stays until the parent itself goes away (and the garbage collector takes over)
+  if !(quietAt tw (tw.length - 1)) || c.getBool "foreign" || c.getBool "released" then none else
   orElse (check (rs.all (·.outcome != "panic")) "a sync panicked") fun _ =>
   orElse (check (c.getBool "finalEqualsTwin") "after the fault the cluster did not converge to the state of the fault-free run") fun _ =>
   check (quietAt rs (rs.length - 1)) "after the fault the controller did not go quiet"
